@@ -95,3 +95,40 @@ theorem sq_div_Lsq_strictMono (c1 k v1 v2 : ℝ) (hc : 0 ≤ c1) (hk : 0 < k) (h
   have : v1 * Lv c1 k v2 < v2 * Lv c1 k v1 := key
   have hp1 : 0 < v1 * Lv c1 k v2 := by positivity
   nlinarith [mul_pos hp1 hp1, mul_lt_mul'' this this hp1.le hp1.le]
+
+/-- 5.75 / Re^0.9 as k·v^(−0.9) with k = 5.75 (ν/Dp)^0.9 -/
+theorem c2_as_k (v Dp nu : ℝ) (hv : 0 < v) (hD : 0 < Dp) (hn : 0 < nu) :
+    5.75 / (v * Dp / nu) ^ (0.9:ℝ) = 5.75 * (nu / Dp) ^ (0.9:ℝ) * v ^ (-(0.9:ℝ)) := by
+  have h1 : v * Dp / nu = v * (Dp / nu) := by ring
+  rw [h1, Real.mul_rpow hv.le (by positivity), Real.rpow_neg hv.le, Real.div_rpow hn.le hD.le, Real.div_rpow hD.le hn.le]
+  have a : 0 < v ^ (0.9:ℝ) := Real.rpow_pos_of_pos hv _
+  have b : 0 < Dp ^ (0.9:ℝ) := Real.rpow_pos_of_pos hD _
+  have c : 0 < nu ^ (0.9:ℝ) := Real.rpow_pos_of_pos hn _
+  field_simp
+
+/-- in the turbulent branch the generated friction factor is 1.325 / L(v)² with c1 = ε/(3.7 Dp), k = 5.75 (ν/Dp)^0.9 -/
+theorem swamee_jain_as_Lv (v Dp eps nu : ℝ) (hv : 0 < v) (hD : 0 < Dp) (hn : 0 < nu)
+    (hturb : 2320 < homogeneous.pipe_reynolds_number v Dp nu) :
+    homogeneous.swamee_jain_ff (homogeneous.pipe_reynolds_number v Dp nu) Dp eps
+      = 1.325 / Lv (eps / (3.7 * Dp)) (5.75 * (nu / Dp) ^ (0.9:ℝ)) v ^ 2 := by
+  unfold homogeneous.swamee_jain_ff
+  have hnl : ¬ homogeneous.pipe_reynolds_number v Dp nu ≤ 2320.0 := by norm_num; exact hturb
+  simp only [hnl, decide_false, Bool.false_eq_true, if_false, Transc.rpow, Transc.npow, Transc.log]
+  unfold Lv
+  rw [reynolds_eq]
+  have e := c2_as_k v Dp nu hv hD hn
+  rw [e, neg_sq]
+
+
+/-- on E the argument of the logarithm is below e^(−0.9) (in fact below 0.1202) -/
+theorem InE.log_arg_small {vls Dp d eps nu rhol rhos Cv : ℝ} (h : InE vls Dp d eps nu rhol rhos Cv) :
+    eps / (3.7 * Dp) + 5.75 * (nu / Dp) ^ (0.9:ℝ) * vls ^ (-(0.9:ℝ)) ≤ Real.exp (-0.9) := by
+  have t1 : 2320 < homogeneous.pipe_reynolds_number vls Dp nu := lt_of_lt_of_le (by norm_num) h.reynolds_ge
+  have h48 := rpow09_gt _ t1
+  rw [reynolds_eq] at h48
+  rw [← c2_as_k vls Dp nu h.vls_pos h.Dp_pos h.nu_pos]
+  have hc2 : 5.75 / (vls * Dp / nu) ^ (0.9:ℝ) < 0.12 := by rw [div_lt_iff₀ (by linarith)]; nlinarith
+  have := exp_neg09_gt
+  have hc1' : eps / (3.7 * Dp) ≤ 0.0002 := by
+    rw [h.eps_eq, div_le_iff₀ (by have := h.Dp_pos; positivity)]; have := h.Dp_lo; nlinarith
+  linarith
